@@ -77,6 +77,8 @@ type c09Case struct {
 	Chunks    []int  `json:"chunks,omitempty"` // composition of Cut: sizes of the successive Read answers
 	End       string `json:"end,omitempty"`    // eof | eof+ | err | err+ | stall   ("+" = together with the last data)
 	ZeroState bool   `json:"zero_state,omitempty"`
+	// timed family: Delays[i] indexes c09Delays, the virtual time the peer lets pass before chunk i arrives
+	Delays []int `json:"delays,omitempty"`
 	// oversize family (stream = Msgs, then a prefix declaring Declared, then Junk bytes / Body letter)
 	Limit    int    `json:"limit,omitempty"`
 	Declared uint32 `json:"declared,omitempty"`
@@ -200,6 +202,8 @@ type c09Reader struct {
 	readsPast int           // non-empty Reads issued at pos >= mark
 	maxAsk    int           // largest len(p) among them
 	stalled   bool
+	delays    []time.Duration // timed family: chunk i arrives delays[i] after the Read that first asks for it
+	released  bool
 }
 
 func (r *c09Reader) termErr() error {
@@ -238,6 +242,22 @@ func (r *c09Reader) Read(p []byte) (int, error) {
 			return 0, io.EOF
 		}
 		return 0, r.termErr()
+	}
+	if r.delays != nil {
+		if r.released {
+			return 0, io.EOF
+		}
+		if d := r.delays[r.ci]; r.in == 0 && d > 0 {
+			// the chunk is not there yet: block (virtual time) until it arrives
+			tm := time.NewTimer(d)
+			select {
+			case <-tm.C:
+			case <-r.release:
+				tm.Stop()
+				r.released = true
+				return 0, io.EOF
+			}
+		}
 	}
 	n := r.chunks[r.ci] - r.in
 	if n > len(p) {
@@ -485,7 +505,7 @@ func c09Drive(target string, rd *c09Reader, limit, calls int) (steps []c09Step, 
 			return nil, true // the bubble will report the leaked goroutine
 		}
 	}
-	if rd.end == "stall" {
+	if rd.end == "stall" || rd.delays != nil {
 		synctest.Wait() // let the reader goroutine freed above finish
 	}
 	return out, hung
@@ -643,6 +663,238 @@ func c09RunRead(st *c09Stream, cs *c09Case) (vs []c09Verdict, outcome string) {
 		}
 	}
 	return vs, outcome
+}
+
+// ---------------------------------------------------------------------------
+// timed family: the bytes that precede the stall (or the end) do not all arrive
+// at time 0. Chunk i becomes available c09Delays[Delays[i]] (virtual time) after
+// the Read that first asks for it. The configured period of ReadDelimitedMessage
+// covers one CALL: a call during which the peer stalls must come back with the
+// timeout error not later than c09Timeout after the call began, wherever in the
+// prefix or the body the stall sits and however late the earlier bytes came; a
+// call whose bytes all arrive within less than the period must deliver.
+
+var c09Delays = []time.Duration{0, c09Timeout / 3, c09Timeout - time.Millisecond}
+
+type c09TimedExp struct {
+	Kind     string // message | timeout | eof | unexpected | tie
+	Reason   string // timeout: stall (the data ran out) | slow (a chunk arrives after the period)
+	K, N     int    // timeout: K of N bytes of the prefix / body had arrived when the period ended
+	InPrefix bool
+	At       time.Duration // message / eof: when, relative to the start of the call
+}
+
+// c09SimTimed is the reference model: it walks over the bytes each call needs
+// (4, then the declared size) and adds a chunk's delay when its first byte is
+// needed. One entry per call, up to and including the first call that does not
+// yield a message.
+func c09SimTimed(data []byte, chunks []int, delays []time.Duration, end string) []c09TimedExp {
+	starts := make(map[int]time.Duration, len(chunks))
+	off := 0
+	for i, c := range chunks {
+		starts[off] = delays[i]
+		off += c
+	}
+	var out []c09TimedExp
+	pos := 0
+	for {
+		var t time.Duration
+		phase := func(need int) (got int, status string) {
+			for got < need {
+				if pos == len(data) {
+					return got, "out"
+				}
+				if d, ok := starts[pos]; ok {
+					delete(starts, pos)
+					t += d
+					if t == c09Timeout {
+						return got, "tie"
+					}
+					if t > c09Timeout {
+						return got, "late"
+					}
+				}
+				pos++
+				got++
+			}
+			return got, ""
+		}
+		fail := func(got, need int, inPrefix bool, status string) c09TimedExp {
+			switch {
+			case status == "tie":
+				return c09TimedExp{Kind: "tie"}
+			case status == "late":
+				return c09TimedExp{Kind: "timeout", Reason: "slow", K: got, N: need, InPrefix: inPrefix}
+			case end == "stall":
+				return c09TimedExp{Kind: "timeout", Reason: "stall", K: got, N: need, InPrefix: inPrefix}
+			case inPrefix && got == 0:
+				return c09TimedExp{Kind: "eof", At: t}
+			default:
+				return c09TimedExp{Kind: "unexpected", At: t}
+			}
+		}
+		got, status := phase(4)
+		if status != "" {
+			return append(out, fail(got, 4, true, status))
+		}
+		n := int(binary.BigEndian.Uint32(data[pos-4 : pos]))
+		got, status = phase(n)
+		if status != "" {
+			return append(out, fail(got, n, false, status))
+		}
+		out = append(out, c09TimedExp{Kind: "message", At: t})
+	}
+}
+
+// c09RunTimed executes one timed-family case (inside a bubble).
+func c09RunTimed(st *c09Stream, cs *c09Case) (vs []c09Verdict, outcome string) {
+	delays := make([]time.Duration, len(cs.Chunks))
+	for i := range delays {
+		delays[i] = c09Delays[cs.Delays[i]]
+	}
+	exp := c09SimTimed(st.Bytes[:cs.Cut], cs.Chunks, delays, cs.End)
+	rd := &c09Reader{data: st.Bytes[:cs.Cut], chunks: cs.Chunks, end: cs.End, mark: 1 << 30, delays: delays, release: make(chan struct{})}
+	if len(delays) == 0 {
+		rd.delays = []time.Duration{}
+	}
+	steps, hung := c09Drive("rdm", rd, c09ReadLimit, len(exp))
+	add := func(key, format string, a ...any) {
+		vs = append(vs, c09Verdict{"rdm:" + key, fmt.Sprintf(format, a...)})
+	}
+	script := fmt.Sprintf("chunks %v arriving after %v, then %s", cs.Chunks, delays, cs.End)
+	if hung {
+		add("stall-no-timeout", "%s: the reads did not return within %v of virtual time (timeout %v)", script, c09Horizon, c09Timeout)
+		return vs, "timed/hung"
+	}
+	for i, s := range steps {
+		if s.pan != "" {
+			add("panic", "call %d panicked: %s", i+1, s.pan)
+			return vs, "timed/panic"
+		}
+	}
+	for i, e := range exp {
+		if i >= len(steps) {
+			return vs, "timed/short"
+		}
+		s := steps[i]
+		class := c09ErrClass(s.err)
+		last := i == len(exp)-1
+		if last {
+			outcome = fmt.Sprintf("timed/%s/%s%s->%s", cs.End, e.Kind, e.Reason, class)
+		}
+		// whatever the reason: a timeout error later than the configured period after the call began
+		if s.err != nil && class == "timeout" && s.elapsed > c09Timeout {
+			add("timeout-late", "%s: call %d reported the timeout %v after it began, configured period %v (error %q)", script, i+1, s.elapsed, c09Timeout, s.err)
+			return vs, outcome
+		}
+		switch e.Kind {
+		case "tie":
+			return vs, "timed/tie"
+		case "message":
+			if s.err != nil {
+				add("slow-delivery-fails", "%s: all bytes of message %d arrive %v after call %d began, which is below the timeout %v, yet the call returned %q after %v", script, i+1, e.At, i+1, c09Timeout, s.err, s.elapsed)
+				return vs, outcome
+			}
+			if !proto.Equal(s.msg, st.Want[i]) {
+				add("message-content-changed", "%s: call %d returned %v, written was %v", script, i+1, s.msg, st.Want[i])
+				return vs, outcome
+			}
+		case "eof", "unexpected":
+			switch {
+			case s.err == nil && e.Kind == "eof":
+				add("message-after-clean-end", "%s: call %d returned a message %v after the clean end", script, i+1, s.msg)
+			case s.err == nil:
+				add("truncation-yields-message", "%s: call %d returned a message %v", script, i+1, s.msg)
+			case e.Kind == "eof" && !errors.Is(s.err, io.EOF):
+				add("clean-end-not-reported-as-eof", "%s: want io.EOF from call %d, got %q", script, i+1, s.err)
+			case e.Kind == "unexpected" && errors.Is(s.err, io.EOF):
+				add("truncation-reported-as-clean-eof", "%s: call %d reported a clean end %q", script, i+1, s.err)
+			case e.Kind == "unexpected" && !errors.Is(s.err, io.ErrUnexpectedEOF) && !strings.Contains(strings.ToLower(s.err.Error()), "unexpected"):
+				add("truncation-not-unexpected-eof", "%s: want an unexpected-end error from call %d, got %q", script, i+1, s.err)
+			}
+		case "timeout":
+			what := "message body"
+			if e.InPrefix {
+				what = "length prefix"
+			}
+			where := fmt.Sprintf("inside a %s (%d of %d bytes arrived within the period)", what, e.K, e.N)
+			if e.Reason == "slow" {
+				// the peer is not stalled, only slower than the period: the property does not say what
+				// has to happen; recorded as an outcome (lateness of a timeout error was judged above)
+				return vs, outcome
+			}
+			switch {
+			case s.err == nil:
+				add("stall-yields-message", "%s: the peer stalled %s, yet call %d returned a message %v after %v", script, where, i+1, s.msg, s.elapsed)
+			case s.elapsed > c09Timeout:
+				add("timeout-late", "%s: the peer stalled %s; call %d came back %v after it began, configured period %v (error %q)", script, where, i+1, s.elapsed, c09Timeout, s.err)
+			case errors.Is(s.err, io.EOF) || errors.Is(s.err, io.ErrUnexpectedEOF):
+				add("stall-reported-as-end-of-stream", "%s: the peer stalled %s (stream not ended); got %q", script, where, s.err)
+			case class != "timeout":
+				add("stall-error-not-a-timeout", "%s: the peer stalled %s; error does not speak of a timeout: %q", script, where, s.err)
+			case !(e.InPrefix && e.K == 0):
+				nums := c09Numbers(strings.ReplaceAll(s.err.Error(), c09Source, ""))
+				if !nums[e.K] || !nums[e.N] {
+					add("timeout-progress-wrong", "%s: the peer stalled %s; the timeout text does not carry the counts %d and %d: %q", script, where, e.K, e.N, s.err)
+				}
+			}
+			if s.err != nil && s.elapsed < c09Timeout {
+				outcome += "(early)"
+			} else if s.err != nil && s.elapsed == c09Timeout {
+				outcome += "@timeout"
+			}
+		}
+	}
+	return vs, outcome
+}
+
+// c09DelayAssignments enumerates the delay indices for a composition into parts chunks: every
+// assignment over c09Delays when parts <= 7 (3^7 = 2187), otherwise the uniform ones and those
+// with exactly one or two delayed chunks among undelayed ones. fn gets a reused slice.
+func c09DelayAssignments(parts int, fn func(d []int)) {
+	d := make([]int, parts)
+	if parts == 0 {
+		fn(d)
+		return
+	}
+	if parts <= 7 {
+		for {
+			fn(d)
+			i := parts - 1
+			for ; i >= 0; i-- {
+				d[i]++
+				if d[i] < len(c09Delays) {
+					break
+				}
+				d[i] = 0
+			}
+			if i < 0 {
+				return
+			}
+		}
+	}
+	for v := range c09Delays {
+		for i := range d {
+			d[i] = v
+		}
+		fn(d)
+	}
+	for v := 1; v < len(c09Delays); v++ {
+		for i := 0; i < parts; i++ {
+			for j := i; j < parts; j++ {
+				for w := 1; w < len(c09Delays); w++ {
+					if i == j && w != v {
+						continue
+					}
+					for x := range d {
+						d[x] = 0
+					}
+					d[i], d[j] = v, w
+					fn(d)
+				}
+			}
+		}
+	}
 }
 
 // ---------------------------------------------------------------------------
@@ -896,6 +1148,7 @@ func (x *c09Run) report(cs *c09Case, vs []c09Verdict, outcome string) {
 	for _, v := range vs {
 		cp := *cs
 		cp.Chunks = append([]int(nil), cs.Chunks...)
+		cp.Delays = append([]int(nil), cs.Delays...)
 		x.r.Violate(v.key, v.detail+"\ncase: "+cp.String(), cp)
 	}
 }
@@ -1026,6 +1279,87 @@ func (x *c09Run) readFamily(thorough bool) {
 				})
 			}
 		}
+	}
+}
+
+// timedFamily: ReadDelimitedMessage against peers whose chunks arrive at virtual times. Streams of
+// one message (every letter) and of two (letters of size 0, 2, 5; thorough: all), every number of
+// delivered bytes, every composition of a delivery of up to `full` bytes (beyond: <=3 chunks and
+// the all-1-byte one), every assignment of delays {0, T/3, T-1ms} to the chunks (more than 7
+// chunks: uniform, one or two delayed chunks), then stall or end of stream.
+func (x *c09Run) timedFamily(thorough bool) {
+	if x.overBudget() {
+		return
+	}
+	full := 7
+	pairLetters := []int{0, 1, 3}
+	if thorough {
+		full = 9
+		pairLetters = []int{0, 1, 2, 3}
+	}
+	var seqs [][]int
+	for i := range c09Alphabet {
+		seqs = append(seqs, []int{i})
+	}
+	for _, a := range pairLetters {
+		for _, b := range pairLetters {
+			seqs = append(seqs, []int{a, b})
+		}
+	}
+	x.r.Extra["timed_all_compositions_up_to_bytes"] = full
+	x.r.Extra["timed_delays"] = fmt.Sprint(c09Delays)
+	seen := map[string]bool{}
+	var total int64
+	defer func() { x.r.Extra["timed_cases_enumerated_all_shards"] = total }()
+	for _, msgs := range seqs {
+		if x.overBudget() {
+			return
+		}
+		st, why := c09NewStream("rdm", "penc", msgs)
+		if st == nil {
+			x.k++
+			if x.r.Mine(x.k) {
+				x.report(&c09Case{Fam: "write", Target: "penc", Msgs: msgs}, []c09Verdict{{"penc:written-bytes-wrong", why}}, "bad-stream")
+			}
+			continue
+		}
+		x.bubble(fmt.Sprintf("timed/%v", msgs), func() {
+			n := len(st.Bytes)
+			for cut := 0; cut <= n; cut++ {
+				key := string(st.Bytes[:cut])
+				if seen[key] && cut < n {
+					continue // delivered prefix shared with an earlier stream (only the stall/cut behaviour, identical)
+				}
+				seen[key] = true
+				c09Comps(cut, full, 3, func(chunks []int) {
+					c09DelayAssignments(len(chunks), func(d []int) {
+						for _, end := range []string{"stall", "eof"} {
+							x.k++
+							total++
+							if !x.r.Mine(x.k) {
+								continue
+							}
+							cs := &c09Case{Fam: "timed", Target: "rdm", Enc: "penc", Msgs: msgs, Cut: cut, Chunks: chunks, Delays: d, End: end}
+							vs, outcome := c09RunTimed(st, cs)
+							delayed := false
+							for _, v := range d {
+								delayed = delayed || v != 0
+							}
+							if delayed {
+								x.r.NonTrivial("")
+							}
+							if x.k%20011 == 1 {
+								cp := *cs
+								cp.Chunks = append([]int(nil), chunks...)
+								cp.Delays = append([]int(nil), d...)
+								x.r.Sample(cp)
+							}
+							x.report(cs, vs, outcome)
+						}
+					})
+				})
+			}
+		})
 	}
 }
 
@@ -1173,6 +1507,20 @@ func TestVerifC09(t *testing.T) {
 			}
 			fmt.Printf("stream (%d bytes): %q\nreference at cut %d: %+v\n", len(st.Bytes), st.Bytes, cs.Cut, st.Refs[cs.Cut])
 			x.bubble("replay", func() { vs, outcome = c09RunRead(st, &cs) })
+		case "timed":
+			st, why := c09NewStream("rdm", cs.Enc, cs.Msgs)
+			if st == nil {
+				t.Fatalf("replay: %s", why)
+			}
+			sum := 0
+			for _, c := range cs.Chunks {
+				sum += c
+			}
+			if cs.Cut > len(st.Bytes) || sum != cs.Cut || len(cs.Delays) != len(cs.Chunks) {
+				t.Fatalf("replay does not fit the stream produced now (%d bytes): %v", len(st.Bytes), cs)
+			}
+			fmt.Printf("stream (%d bytes): %q\n", len(st.Bytes), st.Bytes)
+			x.bubble("replay", func() { vs, outcome = c09RunTimed(st, &cs) })
 		case "oversize":
 			x.bubble("replay", func() { vs, outcome = c09RunOversize(&cs) })
 		case "write":
@@ -1191,6 +1539,7 @@ func TestVerifC09(t *testing.T) {
 	// small families first so that a budget stop never hides them
 	x.writeFamily()
 	x.oversizeFamily()
+	x.timedFamily(rep.Thorough())
 	x.readFamily(rep.Thorough())
 	r.Extra["cases_enumerated_all_shards"] = x.k
 }
